@@ -340,10 +340,15 @@ package prunner
 //@   lockmode none
 //@   ensures  [readonly] unchangedHeap()
 
+//@ pure infoDefined(e *PipelineInfo, r *PipelineRunner) bool = (e.Pipeline in r.defs.Pipelines)
+//@ pure infoSched(e *PipelineInfo, r *PipelineRunner) bool = (e.Schedulable <==> (admit(r, e.Pipeline, false) != scheduleActionNoQueue && admit(r, e.Pipeline, false) != scheduleActionQueueFull))
+//@ pure infoRunning(e *PipelineInfo, r *PipelineRunner) bool = (e.Running <==> exists k :: 0 <= k && k < len(r.jobsByPipeline[e.Pipeline]) && jobRunning(r.jobsByPipeline[e.Pipeline][k]))
 //@ func (*PipelineRunner).ListPipelines
 //@   lockmode none
 //@   ensures  [readonly] same("map(map[string][]*PipelineJob)") && same("map(map[uuid.UUID]*PipelineJob)") && same(PipelineJob.Start) && same(PipelineJob.Canceled) && same(PipelineJob.Completed) && r.defs == old(r.defs)
-//@   loop 1 invariant [ri] RI(r) && r.defs == old(r.defs) && same("map(map[string][]*PipelineJob)") && same("map(map[uuid.UUID]*PipelineJob)") && same(PipelineJob.Start) && same(PipelineJob.Canceled) && same(PipelineJob.Completed) && same("mem(*PipelineJob)")
+//@   ensures  [C15.list] len(res) == len(r.defs.Pipelines) && all(res, infoDefined, r) && all(res, infoSched, r)
+//@   loop 1 invariant [ri] RI(r) && r.defs == old(r.defs) && same("map(map[string][]*PipelineJob)") && same("map(map[uuid.UUID]*PipelineJob)") && same(PipelineJob.Start) && same(PipelineJob.Canceled) && same(PipelineJob.Completed) && same("mem(*PipelineJob)") && same("map(definition.PipelinesMap)") && same("mem(int)")
+//@   loop 1 invariant [C15.list] wf(res) && fresh(base(res)) && all(res, infoDefined, r) && all(res, infoSched, r) && len(res) == card($seen) && forall k string :: $seen[k] ==> (k in r.defs.Pipelines)
 
 //@ func (pipelineJobBy).Sort
 //@   lockmode any
@@ -363,11 +368,17 @@ package prunner
 //@   modifies mem(*PipelineJob)
 //@   loop 1 invariant [bounds] 0 <= $i + 1 && $i + 1 <= len(jobs) && same("mem(*PipelineJob)") && all(jobs[:$i+1], idNeq, jobToRemove)
 
+//@ pure jobFinished(j *PipelineJob) bool = !jobWaiting(j) && (j.Completed || j.Canceled)
 //@ pure jobsUntouched() bool = same(PipelineJob.Start) && same(PipelineJob.Canceled) && same(PipelineJob.Completed) && same(PipelineJob.End) && same(PipelineJob.LastError) && same(PipelineJob.sched) && same(PipelineJob.startTimer) && same(PipelineJob.Pipeline) && same(PipelineJob.ID)
 //@ pure liveKept(r *PipelineRunner) bool = forall id uuid.UUID :: old((id in r.jobsByID) && defined(r, r.jobsByID[id].Pipeline) && (jobWaiting(r.jobsByID[id]) || jobRunning(r.jobsByID[id]))) ==> (id in r.jobsByID) && r.jobsByID[id] == old(r.jobsByID[id])
 
+//@ pure persistedTaskOf(e *store.PersistedTask, t *jobTask) bool = e.Name == t.Name && e.Script == t.Script && e.DependsOn == t.DependsOn && e.AllowFailure == t.AllowFailure && e.Status == t.Status && e.Start == t.Start && e.End == t.End && e.Skipped == t.Skipped && e.ExitCode == t.ExitCode && e.Errored == t.Errored && ((e.Error == nil) <==> (t.Error == nil))
+//@ pure persistedOf(e *store.PersistedJob, j *PipelineJob) bool = j != nil && e.ID == j.ID && e.Pipeline == j.Pipeline && e.Completed == j.Completed && e.Canceled == j.Canceled && e.Created == j.Created && e.Start == j.Start && e.End == j.End && e.Variables == j.Variables && e.User == j.User && ((e.LastError == nil) <==> (j.LastError == nil)) && len(e.Tasks) == len(j.Tasks) && forall k :: 0 <= k && k < len(j.Tasks) ==> persistedTaskOf(e.Tasks[k], j.Tasks[k])
+//@ pure snapshotFaithful(r *PipelineRunner, data *store.PersistedData) bool = forall n :: 0 <= n && n < len(data.Jobs) ==> (data.Jobs[n].ID in r.jobsByID) && persistedOf(data.Jobs[n], r.jobsByID[data.Jobs[n].ID])
+
 //@ func (*PipelineRunner).SaveToStore
 //@   lockmode none
+//@   at call Save#1: assert [C10.persistView] snapshotFaithful(r, data)
 //@   ensures  [T] Tjobs() && jobsUntouched()
 //@   ensures  [defs] r.defs == old(r.defs) && r.isShuttingDown == old(r.isShuttingDown)
 //@   ensures  [C11.tokens] $wgTokens == old($wgTokens)
@@ -379,9 +390,10 @@ package prunner
 //@   loop 2 invariant [ri] RI(r) && r.defs == old(r.defs) && r.jobsByPipeline == old(r.jobsByPipeline) && r.jobsByID == old(r.jobsByID) && jobsUntouched() && liveKept(r) && sameExcept("map(map[string][]*PipelineJob)", r.jobsByPipeline)
 //@   loop 1 invariant [bases] forall p string :: base(r.jobsByPipeline[p]) == old(base(r.jobsByPipeline[p])) && off(r.jobsByPipeline[p]) == old(off(r.jobsByPipeline[p]))
 //@   loop 2 invariant [bases] forall p string :: base(r.jobsByPipeline[p]) == old(base(r.jobsByPipeline[p])) && off(r.jobsByPipeline[p]) == old(off(r.jobsByPipeline[p]))
+//@   loop 2 invariant [C12.count] forall k :: 0 <= k && k <= $i && jobFinished(sortedJobsInPipeline[k]) && defined(r, sortedJobsInPipeline[k].Pipeline) && r.defs.Pipelines[sortedJobsInPipeline[k].Pipeline].RetentionCount > 0 && k >= r.defs.Pipelines[sortedJobsInPipeline[k].Pipeline].RetentionCount ==> !(sortedJobsInPipeline[k].ID in r.jobsByID)
 //@   loop 2 invariant [sorted] all(sortedJobsInPipeline, nonNil) && all(sortedJobsInPipeline, registered, r) && fresh(base(sortedJobsInPipeline)) && 0 <= $i + 1 && $i + 1 <= len(sortedJobsInPipeline)
-//@   loop 3 invariant [ri] RI(r) && r.defs == old(r.defs) && jobsUntouched() && liveKept(r) && sameExcept("map(map[string][]*PipelineJob)", old(r.jobsByPipeline)) && $held == 2 && fresh(data) && fresh(base(data.Jobs)) && wf(data.Jobs)
-//@   loop 4 invariant [ri] RI(r) && r.defs == old(r.defs) && jobsUntouched() && liveKept(r) && sameExcept("map(map[string][]*PipelineJob)", old(r.jobsByPipeline)) && $held == 2 && fresh(data) && fresh(base(data.Jobs)) && wf(data.Jobs) && 0 <= $i + 1 && $i + 1 <= len(tasks) && fresh(base(tasks))
+//@   loop 3 invariant [ri] RI(r) && r.defs == old(r.defs) && jobsUntouched() && liveKept(r) && sameExcept("map(map[string][]*PipelineJob)", old(r.jobsByPipeline)) && $held == 2 && fresh(data) && fresh(base(data.Jobs)) && wf(data.Jobs) && snapshotFaithful(r, data) && same("jobTask.*") && same(PipelineJob.Tasks) && same(PipelineJob.Variables) && same(PipelineJob.User) && same(PipelineJob.Created)
+//@   loop 4 invariant [ri] RI(r) && r.defs == old(r.defs) && jobsUntouched() && liveKept(r) && sameExcept("map(map[string][]*PipelineJob)", old(r.jobsByPipeline)) && $held == 2 && fresh(data) && fresh(base(data.Jobs)) && wf(data.Jobs) && snapshotFaithful(r, data) && same("jobTask.*") && same(PipelineJob.Tasks) && same(PipelineJob.Variables) && same(PipelineJob.User) && same(PipelineJob.Created) && 0 <= $i + 1 && $i + 1 <= len(tasks) && fresh(base(tasks)) && off(tasks) == 0 && len(tasks) == len(job.Tasks) && job != nil && r.jobsByID[job.ID] == job && (job.ID in r.jobsByID) && base(tasks) != base(data.Jobs) && forall k :: 0 <= k && k <= $i ==> persistedTaskOf(tasks[k], job.Tasks[k])
 
 //@ func (*pipelineJobsSorter).Len
 //@   lockmode R
@@ -481,11 +493,11 @@ package prunner
 //@ property C05: prunner.*/ensures[C05.*] prunner.*/monitor[RI] prunner.*/ensures[ri] prunner.*/call-pre[*.ri]* prunner.*/loop*/inv-*[ri] prunner.removeJobFromWaitList/* prunner.(*PipelineRunner).runningJobsCount/* prunner.*/ensures[C15.reject] prunner.*/ensures[C15.accept] lemma/cntFrame* prunner.*/loop*/inv-*[others] prunner.*/loop*/inv-*[mine] prunner.*/loop*/inv-*[purged] prunner.(*PipelineRunner).startJobsOnWaitList/* prunner.(*PipelineRunner).startJob/* prunner.(*PipelineRunner).cancelJobInternal/* prunner.removeJobFromWaitList/*
 //@ property C06: prunner.*/ensures[C06.*] prunner.(*PipelineRunner).ScheduleAsync/ensures[C05.queue] prunner.(*PipelineRunner).ScheduleAsync/ensures[C05.replace] prunner.(*PipelineRunner).ScheduleAsync/ensures[C05.start] prunner.(*PipelineRunner).startJobsOnWaitList/loop* prunner.*/call-pre[(*PipelineRunner).startJob.offList]* prunner.removeJobFromWaitList/* prunner.*/monitor[RI] prunner.*/ensures[C12.waitLists] prunner.(*PipelineRunner).startJobsOnWaitList/* prunner.(*PipelineRunner).startJob/* prunner.(*PipelineRunner).cancelJobInternal/* prunner.removeJobFromWaitList/* prunner.*/ensures[T] prunner.*/ensures[ri] prunner.*/call-pre[*.ri]*
 //@ property C07: prunner.*/ensures[C07.*] prunner.*/call-pre[(*PipelineRunner).startJob.timerDone]* prunner.*/ensures[C03.timerTruth] prunner.*/ensures[C03.progress] prunner.(*PipelineRunner).ScheduleAsync/ensures[C05.replace] prunner.(*PipelineRunner).startJob/ensures[skipCanceled] prunner.(*PipelineRunner).resolveDequeueJobAction/ensures* prunner/writers[PipelineJob.startTimer] prunner/writers[PipelineJob.StartDelay]
-//@ property C10: prunner.*/ensures[C10.*] prunner.(*PipelineRunner).initialLoadFromStore/loop* prunner.buildJobFromPersistedJob/* helper.*/ensures* store/globalinit[json] store.(*JsonDataStore).Load/ensures[C09.load]
+//@ property C10: prunner.*/ensures[C10.*] prunner.(*PipelineRunner).initialLoadFromStore/loop* prunner.buildJobFromPersistedJob/* helper.*/ensures* store/globalinit[json] store.(*JsonDataStore).Load/ensures[C09.load] prunner.*/assert[C10.*] prunner.(*PipelineJob).isRunning/ensures* prunner.(*PipelineRunner).SaveToStore/loop3/* prunner.(*PipelineRunner).SaveToStore/loop4/*
 //@ property C11: prunner.*/ensures[C11.*] prunner.*/assert[C11.*] prunner.(*PipelineRunner).Shutdown/loop* prunner.(*PipelineRunner).Shutdown/monitor[RI] prunner.(*PipelineRunner).Shutdown/ensures[T] prunner.(*PipelineRunner).Shutdown$1/* prunner/writers[PipelineRunner.isShuttingDown]
 //@ property C12: prunner.*/ensures[C12.*] prunner.(*PipelineRunner).SaveToStore/* prunner.removeJobFromList/* prunner.byCreationTimeDesc/ensures*
 //@ property C13: prunner.*/lock[read] prunner.*/lock[write] prunner.*/lockproto[*] prunner.*/call-pre[*.lockmode]* prunner.*/call-pre[*.guard]* prunner.*/call-pre[*.empty]* prunner.*/ensures[unpublished]
-//@ property C15: prunner.*/ensures[C15.*] prunner.(*PipelineRunner).resolveScheduleAction/ensures[range] prunner.(*PipelineRunner).isRunning/loop* prunner.(*PipelineRunner).ReadJob/* prunner.(*PipelineRunner).IterateJobs/ensures* prunner.(*PipelineRunner).ListPipelines/ensures* prunner.(*PipelineRunner).ListPipelines/loop*
+//@ property C15: prunner.*/ensures[C15.*] prunner.(*PipelineRunner).resolveScheduleAction/ensures[range] prunner.(*PipelineRunner).isRunning/loop* prunner.(*PipelineRunner).ReadJob/* prunner.(*PipelineRunner).IterateJobs/ensures* prunner.(*PipelineRunner).ListPipelines/ensures* prunner.(*PipelineRunner).ListPipelines/loop* prunner.(*PipelineJob).isRunning/ensures*
 //@ property C08: prunner.*/assert[C08.*] prunner.(*PipelineRunner).JobCompleted/ensures[C04.verdict] prunner.*/assert[C04.cancelMeansError] prunner.(jobTasks).ByName/*
 //@ property C16: prunner.*/ensures[C16.*] prunner.*/ensures[defs] prunner.(*PipelineRunner).resolveDequeueJobAction/ensures[C03.dequeueDecision] prunner/writers[PipelineJob.Tasks] prunner/writers[PipelineJob.Env] prunner/writers[PipelineJob.Variables] prunner/writers[PipelineJob.StartDelay] prunner/writers[PipelineRunner.defs] prunner.*/call-pre[(*PipelineRunner).startJob.timerDone]*
-//@ property C02: prunner.*/call-pre[(*PipelineRunner).startJob.notStarted]* prunner/writers[PipelineJob.Start] prunner.(*PipelineRunner).startJob/ensures[graphError] prunner.(*PipelineRunner).startJob/ensures[T] prunner.*/assert[C01.order] prunner.*/assert[C04.cancelMeansError]
+//@ property C02: prunner.*/call-pre[(*PipelineRunner).startJob.notStarted]* prunner/writers[PipelineJob.Start] prunner.(*PipelineRunner).startJob/ensures[graphError] prunner.(*PipelineRunner).startJob/ensures[T] prunner.*/assert[C01.order] prunner.*/assert[C04.cancelMeansError] prunner.*/call-pre[(*PipelineRunner).startJob.offList]* prunner.(*PipelineRunner).startJobsOnWaitList/*
